@@ -7,6 +7,7 @@ RawIOBase.readinto / duck read / text read may return short; BufferedIOBase.read
 full-length unless EOF.
 """
 import io
+import re
 import os
 import sys
 import urllib.request
@@ -236,11 +237,39 @@ class SimBuffered(io.BufferedIOBase):
         super().close()
 
 
+_ENC_DECL = re.compile(rb'^<\?xml[^>]*?encoding\s*=\s*["\']([A-Za-z0-9._-]+)["\']')
+
+
+def decode_declared(data):
+    """The characters of a document given as bytes, by the encoding its XML declaration names (UTF-8 otherwise): what a
+    caller holding the document as text has in hand."""
+    if not isinstance(data, bytes):
+        return data
+    m = _ENC_DECL.match(data[:200])
+    if m:
+        try:
+            return data.decode(m.group(1).decode('ascii'))
+        except (LookupError, UnicodeDecodeError):
+            pass
+    return data.decode('utf-8')
+
+
+def declared_encoding(data):
+    m = _ENC_DECL.match(data[:200]) if isinstance(data, bytes) else None
+    if m:
+        try:
+            import codecs
+            return codecs.lookup(m.group(1).decode('ascii')).name
+        except LookupError:
+            pass
+    return 'utf-8'
+
+
 class SimText(io.TextIOBase):
     """Text stream over decoded characters (plan counts characters)."""
     def __init__(self, data, **kw):
         super().__init__()
-        text = data.decode('utf-8') if isinstance(data, bytes) else data
+        text = decode_declared(data)
         self.core = StreamCore(text, **kw)
         self.core.owner = self
         if hasattr(self.core, 'url'):
